@@ -2,6 +2,7 @@
    generated case file CasesC02.v; executable definitions only) *)
 From Coq Require Import ZArith.
 From KM Require Import Base.Bytes Model.Auth Model.Certgen Model.CertgenCases.
+From KM Require Proofs.CertgenSpec.
 From KM Require Model.Seal.
 Open Scope N_scope.
 
@@ -116,3 +117,39 @@ Definition c02_model_published (c : c02case) : bool :=
 
 Definition c02_bad (c : c02case) : bool :=
   negb (outcome_matches (c02_outcome c) (k_obs c) && c02_model_published c).
+
+(* ---- the property's predicate on the OBSERVED answer of a case (evaluated by the generated case file
+   on every case on which implementation and model differ).  It is written against the SPECIFICATION
+   (Proofs/CertgenSpec.v spec_ext; the request of a case is a valid U2F session of k_user), not against
+   certgen: the conclusions of c02_binding, c02_other_user_refused, c02_extensions and
+   c02_failed_expansion_refused evaluated on what came back.
+   0 = the observation satisfies the property; 1 = a certificate for a request on behalf of another
+   name; 2 = the certificate does not name exactly the authenticated user; 3 = it does not certify the
+   submitted key; 4 = not an end-entity user certificate; 5 = does not verify under what the server
+   publishes; 6 = the SSH extension map is not exactly the five standard names plus every configured
+   template expanded for the user (a template that cannot be expanded: nothing may be issued);
+   7 = neither a certificate nor an error *)
+Definition is_some {A} (o : option A) : bool := match o with Some _ => true | None => false end.
+Definition exts_violate (expand : bs -> bs -> option bs) (tpl : list (bs * bs)) (user : bs) (obs : list (bs * bs)) : bool :=
+  negb (forallb (fun kv => is_some (expand (fst kv) user) && is_some (expand (snd kv) user)) tpl) ||
+  negb (forallb (fun kv => opt_bs_eqb (CertgenSpec.spec_ext expand tpl user (fst kv)) (Some (snd kv))) obs) ||
+  negb (forallb (fun k => opt_bs_eqb (CertgenSpec.spec_ext expand tpl user k) (lookup obs k))
+                (std5 ++ map (fun kv => match expand (fst kv) user with Some k => k | None => [] end) tpl)).
+Definition c02_violation (c : c02case) : N :=
+  let o := k_obs c in
+  let st := c02_server c in
+  if negb (o_issued o) then (if o_error o then 0 else 7)
+  else if negb (bs_eqb (k_user c) (k_target c)) then 1
+  else if negb (list_bs_eqb (o_names o) [k_user c]) then 2
+  else if negb (match k_key c with Some (k, _) => o_key o =? k | None => false end) then 3
+  else if negb (o_user_type o) || o_is_ca o || (negb (o_ssh o) && negb (o_eku_client o)) then 4
+  else if negb (Seal.mem (o_signer o) (if o_ssh o then published_ssh st else published_x509 st)) then 5
+  else if o_ssh o && exts_violate (fun t _ => lookup_opt (k_expansions c) t) (k_templates c) (k_user c) (o_exts o) then 6
+  else 0.
+(* (index, violation class) of every mismatching case *)
+Fixpoint c02_diffv_from (l : list c02case) (i : nat) : list (nat * N) :=
+  match l with
+  | [] => []
+  | c :: r => if c02_bad c then (i, c02_violation c) :: c02_diffv_from r (S i) else c02_diffv_from r (S i)
+  end.
+Definition c02_filter_violating (l : list (nat * N)) : list (nat * N) := filter (fun p => negb (snd p =? 0)) l.
